@@ -154,6 +154,7 @@ EbErrorType dec_system_resource_init(EbDecHandle *dec_handle_ptr, TilesInfo *til
     /* Motion Filed Projection*/
     dec_mt_frame_data->motion_proj_info.num_motion_proj_rows = -1;
     EB_CREATE_MUTEX(dec_mt_frame_data->motion_proj_info.motion_proj_mutex);
+    EB_ADD_DEC_OBJECT(dec_mt_frame_data->motion_proj_info.motion_proj_mutex, EB_MUTEX);
 
     int32_t  sb_size_h            = block_size_high[dec_handle_ptr->seq_header.sb_size];
     uint32_t picture_height_in_sb = (dec_handle_ptr->frame_header.frame_size.frame_height +
@@ -167,6 +168,7 @@ EbErrorType dec_system_resource_init(EbDecHandle *dec_handle_ptr, TilesInfo *til
     DecMtRowInfo *parse_tile_info = &dec_mt_frame_data->parse_tile_info;
 
     EB_CREATE_MUTEX(parse_tile_info->sbrow_mutex);
+    EB_ADD_DEC_OBJECT(parse_tile_info->sbrow_mutex, EB_MUTEX);
     parse_tile_info->num_sb_rows       = num_tiles;
     parse_tile_info->sb_row_to_process = 0;
 
@@ -178,6 +180,7 @@ EbErrorType dec_system_resource_init(EbDecHandle *dec_handle_ptr, TilesInfo *til
 
     DecMtRowInfo *recon_tile_info = &dec_mt_frame_data->recon_tile_info;
     EB_CREATE_MUTEX(recon_tile_info->sbrow_mutex);
+    EB_ADD_DEC_OBJECT(recon_tile_info->sbrow_mutex, EB_MUTEX);
 
     recon_tile_info->num_sb_rows       = num_tiles;
     recon_tile_info->sb_row_to_process = 0;
@@ -186,6 +189,7 @@ EbErrorType dec_system_resource_init(EbDecHandle *dec_handle_ptr, TilesInfo *til
         int32_t tiles_ctr;
 
         EB_CREATE_MUTEX(dec_mt_frame_data->tile_switch_mutex);
+        EB_ADD_DEC_OBJECT(dec_mt_frame_data->tile_switch_mutex, EB_MUTEX);
 
         EB_MALLOC_DEC(DecMtParseReconTileInfo *,
                       dec_mt_frame_data->parse_recon_tile_info_array,
@@ -232,6 +236,7 @@ EbErrorType dec_system_resource_init(EbDecHandle *dec_handle_ptr, TilesInfo *til
 
             EB_CREATE_MUTEX(
                 dec_mt_frame_data->parse_recon_tile_info_array[tiles_ctr].tile_sbrow_mutex);
+            EB_ADD_DEC_OBJECT(dec_mt_frame_data->parse_recon_tile_info_array[tiles_ctr].tile_sbrow_mutex, EB_MUTEX);
 
             /* SB row queue */
             //EB_NEW(dec_mt_frame_data->parse_recon_tile_info_array[tiles_ctr].recon_tile_sbrow_resource_ptr,
@@ -262,6 +267,7 @@ EbErrorType dec_system_resource_init(EbDecHandle *dec_handle_ptr, TilesInfo *til
     DecMtRowInfo *lf_sb_row_info = &dec_mt_frame_data->lf_frame_info.lf_sb_row_info;
 
     EB_CREATE_MUTEX(lf_sb_row_info->sbrow_mutex);
+    EB_ADD_DEC_OBJECT(lf_sb_row_info->sbrow_mutex, EB_MUTEX);
     lf_sb_row_info->num_sb_rows       = picture_height_in_sb;
     lf_sb_row_info->sb_row_to_process = 0;
 
@@ -323,6 +329,7 @@ EbErrorType dec_system_resource_init(EbDecHandle *dec_handle_ptr, TilesInfo *til
     DecMtRowInfo *cdef_sb_row_info = &dec_mt_frame_data->cdef_sb_row_info;
 
     EB_CREATE_MUTEX(cdef_sb_row_info->sbrow_mutex);
+    EB_ADD_DEC_OBJECT(cdef_sb_row_info->sbrow_mutex, EB_MUTEX);
 
     cdef_sb_row_info->num_sb_rows       = picture_height_in_sb;
     cdef_sb_row_info->sb_row_to_process = 0;
@@ -340,11 +347,13 @@ EbErrorType dec_system_resource_init(EbDecHandle *dec_handle_ptr, TilesInfo *til
     DecMtRowInfo *lr_sb_row_info = &dec_mt_frame_data->lr_sb_row_info;
 
     EB_CREATE_MUTEX(lr_sb_row_info->sbrow_mutex);
+    EB_ADD_DEC_OBJECT(lr_sb_row_info->sbrow_mutex, EB_MUTEX);
 
     lr_sb_row_info->num_sb_rows       = picture_height_in_sb;
     lr_sb_row_info->sb_row_to_process = 0;
 
     dec_mt_frame_data->temp_mutex = svt_create_mutex();
+    EB_ADD_DEC_OBJECT(dec_mt_frame_data->temp_mutex, EB_MUTEX);
 
     dec_mt_frame_data->start_motion_proj  = EB_FALSE;
     dec_mt_frame_data->start_parse_frame  = EB_FALSE;
@@ -387,12 +396,14 @@ EbErrorType dec_system_resource_init(EbDecHandle *dec_handle_ptr, TilesInfo *til
                 DecThreadCtxt *, thread_ctxt_pa, num_lib_threads * sizeof(DecThreadCtxt), EB_N_PTR);
             dec_handle_ptr->thread_ctxt_pa = thread_ctxt_pa;
             EB_CREATE_SEMAPHORE(dec_handle_ptr->thread_semaphore, 0, 100000);
+            EB_ADD_DEC_OBJECT(dec_handle_ptr->thread_semaphore, EB_SEMAPHORE);
 
             for (uint32_t i = 0; i < num_lib_threads; i++) {
                 thread_ctxt_pa[i].thread_cnt     = i + 1;
                 thread_ctxt_pa[i].dec_handle_ptr = dec_handle_ptr;
                 thread_ctxt_pa[i].dec_mod_ctxt   = dec_mod_ctxt_arr[i];
                 EB_CREATE_SEMAPHORE(thread_ctxt_pa[i].thread_semaphore, 0, 100000);
+                EB_ADD_DEC_OBJECT(thread_ctxt_pa[i].thread_semaphore, EB_SEMAPHORE);
                 int use_highbd = (dec_handle_ptr->seq_header.color_config.bit_depth > EB_8BIT ||
                                   dec_handle_ptr->is_16bit_pipeline);
                 EB_MALLOC_DEC(uint8_t *,
